@@ -77,7 +77,8 @@ SOURCES = [None, True, False, 0, 1, 2, -3, 10 ** 12, 0.0, 1.0, 2.5, -0.25, 3.0, 
            [], [1], ["7"], [1, 2], ["a", "b"], [[1]], [None], (), (1,), (1, 2), (1, 2, 3), {1}, {1, 2}, frozenset({1}), collections.deque([1, 2]),
            {}, {"a": 1}, {"a": 1, "b": 2}, {1: 2}, [("a", 1)], [{"a": 1}], [{"a": 1}, {"b": 2}],
            datetime.datetime(2022, 3, 4, 10, 11, 12), datetime.datetime(2022, 3, 4), datetime.date(2022, 3, 4), datetime.time(10, 11, 12),
-           datetime.timedelta(days=1, seconds=5), uuid.UUID("123e4567-e89b-12d3-a456-426614174000"), Color.red, MyInt(5), object]
+           datetime.timedelta(days=1, seconds=5), uuid.UUID("123e4567-e89b-12d3-a456-426614174000"), Color.red, MyInt(5), object,
+           "INST1", "INST2", "INST3"]
 
 
 def targets():
@@ -95,11 +96,15 @@ def targets():
             ("frozenset", frozenset, "array", False), ("deque", collections.deque, "array", False), ("dict", dict, "object", False),
             ("date", datetime.date, "temporal", True), ("datetime", datetime.datetime, "temporal", True), ("time", datetime.time, "temporal", True),
             ("timedelta", datetime.timedelta, "temporal", True), ("UUID", uuid.UUID, "", True), ("Color", Color, "", True), ("MyInt", MyInt, "number", True),
-            ("Tuple2", T2, "array", False), ("Schema", Sc, "object", False)]
+            ("Tuple2", T2, "array", False), ("Schema", Sc, "object", False), ("SchemaT", Sc, "", True)]
 
 
 def cell(x, tname, T, tgroup, tscalar):
     from utype import type_transform, Options
+    if isinstance(x, str) and x.startswith("INST"):
+        if not tname.startswith("Schema"):
+            raise ValueError("instances are only fed to their own class")
+        x = {"INST1": [T(a=1), T(a=2)], "INST2": [T(a=1), {"a": 2}], "INST3": [T(a=1)]}[x]
     outs = []
     xr = alpha(x) if x is not object else alpha(object())
     for ne, ndl in ((False, False), (True, False), (False, True), (True, True)):
